@@ -163,12 +163,12 @@ def int_primitives():
 
 
 def wire_value(c, data, width=8):
-    """reference decoding (harness side): which integer is on the wire"""
-    if isinstance(data, codec.SBytes) and len(data) == width:
-        return bytes_to_int(data.b)
-    if isinstance(data, (bytes, bytearray)) and len(data) == width:
-        return int.from_bytes(data, 'little')
-    raise symex.HarnessError(f'unexpected data on the wire where a {width}-byte integer was expected: {data!r}')
+    """reference decoding (harness side): which integer is on the wire; None when it is not `width` bytes"""
+    if isinstance(data, codec.SBytes):
+        return bytes_to_int(data.b) if len(data) == width else None
+    if isinstance(data, (bytes, bytearray)):
+        return int.from_bytes(data, 'little') if len(data) == width else None
+    raise symex.HarnessError(f'unexpected object on the wire where a {width}-byte integer was expected: {data!r}')
 
 
 def wire_token(c, value, width=8):
@@ -572,6 +572,9 @@ class Sender:
                 raise symex.HarnessError(f'expected exactly the offset on the wire, got {self.written!r}')
             self.offset = wire_value(c, self.written[0])
             self.src = self.offset
+        if self.offset is None:
+            self.fault = 'eof'        # what arrived is not an 8-byte offset: this uploader gives up and closes
+            return b''
         i = self.reads
         self.reads += 1
         kinds = (['data'] if len(self.handed) < self.max_data_reads else []) + FAULTS
@@ -648,8 +651,9 @@ def h_download(c, lim='unlimited', reads=2, attempts=1, pre='fresh', offset_faul
             if sender.written:
                 c.reach('offset_sent')
                 off = wire_value(c, sender.written[0])
-                c.check(off == size_before, 'offset_is_local_size', sig=[lim, pre if a == 0 else 'retry'],
-                        info='offset sent to the uploader differs from the size of the local file')
+                c.check(False if off is None else off == size_before, 'offset_is_local_size', sig=[lim, pre if a == 0 else 'retry'],
+                        info='offset sent to the uploader differs from the size of the local file' if off is not None
+                        else f'what was sent is not an 8-byte offset: {sender.written[0]!r}')
             # -- COMPLETE means intact ------------------------------------------------------
             f = fs.files.get(DL_PATH)
             if st == S.COMPLETE:
@@ -801,9 +805,10 @@ def h_upload(c, lim='unlimited', reads=2, offset_read='ok', write_faults=True):
         if len(reqs) != 1:
             raise symex.HarnessError('upload did not announce itself with exactly one PeerTransferRequest')
         announced = reqs[0].filesize
-        if recv.ticket_wire is not None:
+        if recv.drains > 0:
             c.reach('ticket_sent')
-            c.check(recv.ticket_wire == reqs[0].ticket, 'ticket_on_wire_is_announced_ticket', sig=[lim],
+            c.check(False if recv.ticket_wire is None else recv.ticket_wire == reqs[0].ticket,
+                    'ticket_on_wire_is_announced_ticket', sig=[lim],
                     info='the 4 bytes that open the file connection do not decode to the ticket of the PeerTransferRequest')
         if st == S.COMPLETE:
             c.reach('upload_complete')
@@ -893,7 +898,12 @@ class Link:
         c = self.c
         head = wire.buf[0]
         if not isinstance(head, Chunk):
-            raise symex.HarnessError(f'file data expected on the wire, got {head!r}')
+            # left-over hand-shake bytes in front of the file data (only after a code change): the downloader
+            # receives them as file content that is no byte of the remote file
+            wire.buf.pop(0)
+            wire.wake()
+            self.delivered = self.delivered + len(head)
+            return Chunk(-(1 << 80), len(head))
         if self.cut is not None and self.delivered >= self.cut:          # forks on the symbolic cut point
             self.kill()
             raise ConnectionResetError('connection reset by peer')
@@ -935,6 +945,8 @@ class End:
             if link.offset_wire is not None:
                 raise symex.HarnessError(f'downloader wrote more than the offset: {data!r}')
             link.offset_wire = wire_value(link.c, data)
+            if link.offset_wire is None:
+                link.offset_wire = 'not 8 bytes'
         elif isinstance(data, Chunk):
             link.up_written.append(data)
         self.tx.feed(data)
@@ -969,17 +981,26 @@ class End:
 
     # --- reader ---------------------------------------------------------------------------
     async def readexactly(self, n):
+        got = []
         while True:
             if self.link.dead:
                 raise ConnectionResetError('connection reset by peer')
-            if self.rx.buf:
-                d = self.rx.buf.pop(0)
+            while self.rx.buf and len(got) < n:
+                d = self.rx.buf[0]
+                if isinstance(d, Chunk):
+                    raise symex.HarnessError(f'readexactly({n}) met file data')
+                t = list(d.b) if isinstance(d, codec.SBytes) else list(bytes(d))
+                take = t[:n - len(got)]
+                got.extend(take)
+                if len(take) == len(t):
+                    self.rx.buf.pop(0)
+                else:
+                    self.rx.buf[0] = type(d)(t[len(take):]) if isinstance(d, codec.SBytes) else bytes(t[len(take):])
                 self.rx.wake()
-                if isinstance(d, Chunk) or xlen(d) != n:
-                    raise symex.HarnessError(f'readexactly({n}) met {d!r}')
-                return d
+            if len(got) == n:
+                return bytes(got) if all(isinstance(x, int) for x in got) and not self.link.c.symbolic else codec.SBytes(got)
             if self.rx.eof:
-                raise asyncio.IncompleteReadError(b'', n)
+                raise asyncio.IncompleteReadError(bytes(x for x in got if isinstance(x, int)), n)
             await self.rx.wait()
 
     async def read(self, n=-1):
@@ -1125,12 +1146,13 @@ def h_pair(c, lim='anysize', reads=2, segments=3, cuts=0, pre='fresh', attempts=
                             info='COMPLETE but a chunk read at source offset s by the uploader is stored at another position')
             if us == S.COMPLETE:
                 c.reach('pair_upload_complete')
-                pos = link.offset_wire if link.offset_wire is not None else 0
+                ow = None if isinstance(link.offset_wire, str) else link.offset_wire
+                pos = ow if ow is not None else 0
                 cont = []
                 for ch in link.up_written:
                     cont.append(ch.src == pos)
                     pos = pos + ch.n
-                c.check(link.offset_wire is not None and (And(*cont) if cont else True),
+                c.check(ow is not None and (And(*cont) if cont else True),
                         'upload_complete_sent_from_offset', sig=sig)
                 c.check(pos == F, 'upload_complete_sent_up_to_announced_size', sig=sig)
                 c.check(link.down_closed or link.dead, 'upload_complete_peer_closed', sig=sig)
@@ -1332,26 +1354,35 @@ META = {
                   PeerConnection.send_data, PeerConnection._send, PeerConnection.send_message, PeerConnection.receive_transfer_offset,
                   PeerConnection.receive_until_eof, PeerConnection.disconnect, PeerConnection.set_connection_state,
                   Transfer._transfer_progress_callback, Transfer.is_transfered, Transfer.add_speed_log_entry,
-                  primitives.uint64.serialize, primitives.uint64.deserialize,
+                  primitives.uint64.serialize, primitives.uint64.deserialize, primitives.uint32.serialize, primitives.uint32.deserialize,
+                  PeerConnection.receive_transfer_ticket, TransferManager._on_peer_initialized, TransferManager._on_peer_transfer_request,
                   state_mod.InitializingState.start_transferring, state_mod.DownloadingState.complete,
                   state_mod.DownloadingState.incomplete, state_mod.DownloadingState.fail, state_mod.UploadingState.complete,
                   state_mod.UploadingState.fail, state_mod.IncompleteState.initialize, state_mod.FailedState.queue,
                   UnlimitedRateLimiter.take_tokens, LimitedRateLimiter.take_tokens],
     'stubs': ['connection.len / model.len -> xlen (length of a Chunk is its symbolic n; builtin len otherwise)',
-              'manager.uint64 / connection.uint64 -> box whose serialize/deserialize are the real functions and whose STRUCT is a '
-              'pure-Python <Q pack/unpack keeping the value symbolic (validated against struct in the prelude)',
+              'uint8/uint16/uint32/uint64/int32 of aioslsk.protocol.primitives (engine/codec.py): STRUCT -> IntStruct, a subclass of '
+              'engine.codec.StructStub (pure-Python little-endian pack with CPython range errors to BV8 byte terms; unpack returns the '
+              'integer as an Int-theory value), __new__ -> engine.codec boxed constructor (uint64(v) with symbolic v is a box whose '
+              'serialize/deserialize are the real functions of the class). The offset and the ticket are SBytes of 8 / 4 BV8 terms on '
+              'the fake wire; validated against struct in the prelude',
+              'bytes_to_int rewrite: bv2int(low k bytes of int2bv(v)) == v mod 2^(8k) (validated in the prelude)',
+              'TransferManager._file_connection_futures (dict) -> TicketMap (lookup by forking equality, so the ticket may be symbolic); '
+              'TransferManager._ticket_generator -> any ticket 1..2^32-1, pairwise distinct (upload / pair)',
               'manager.int -> symex.sym_int (upload speed report only)',
               'manager.aiofiles / manager.asyncos / state.asyncos -> in-memory file system (download target: append-only list of '
               '(position, Chunk); upload source: size, read(n) = min(n, size-pos)); validated against aiofiles in the prelude',
               'model.time / rate_limiter.time -> virtual loop clock',
-              'asyncio streams -> scripted reader/writer (Sender / Receiver / Pipe)',
-              'Network -> FakeNet (records messages, hands out the scripted reply and file connection)',
+              'asyncio streams -> scripted reader/writer (Sender / Receiver / Link)',
+              'Network -> FakeNet / PairNet (records messages, hands out the scripted reply and file connection)',
               'SharesManager -> calculate_download_path returns a fixed non-existing path, create_directory no-op',
-              'TransferManager built with object.__new__ and the 8 attributes the kernels touch',
+              'TransferManager built with object.__new__ and the attributes the kernels touch',
               'limiter kind "anysize": take_tokens returns a fresh symbolic 1..2^62 (superset of the two real limiters, which are '
               'also run)'],
     'data_variables': ['announced filesize 0..2^64-1', 'local file size before the attempt 0..2^64-1',
-                       'offset on the wire (through real uint64.serialize / deserialize)', 'length of every chunk returned by a read (1..asked)',
+                       'the 8 offset bytes on the wire (BV8 terms; real uint64.serialize on the download side, real '
+                       'receive_transfer_offset / uint64.deserialize on the upload side)',
+                       'transfer ticket 1..2^32-1 and its 4 bytes on the wire (real uint32.serialize / receive_transfer_ticket)', 'length of every chunk returned by a read (1..asked)',
                        'tokens per limiter grant (anysize: 1..2^62)', 'actual size of the uploaded file on disk 0..2^64-1',
                        'negotiated offset received by the uploader 0..2^64-1', 'cut point of the file stream (pair harness) 0..2^64-1',
                        'TCP segment lengths (pair harness)'],
